@@ -22,12 +22,12 @@ func init() {
 		return simrt.Options{MaxSteps: 60000, RotateMaps: true, StallPermille: 40, StallMax: 4 * time.Millisecond}
 	}, Body: func(c *runner.Ctx) { batchBody(c) }})
 	runner.Register("C05", runner.Scenario{Name: "batch-preempt", Options: func(string) simrt.Options {
-		return simrt.Options{MaxSteps: 60000, RotateMaps: true, ParkPermille: 15, MapPausePermille: 200}
+		return simrt.Options{MaxSteps: 60000, RotateMaps: true, ParkPermille: 15, MapPausePermille: 200, SpawnPausePermille: 30}
 	}, Body: func(c *runner.Ctx) { batchBody(c) }})
 	// the same workload under the limiter property: callers hold tokens, Many
 	// runs on their goroutines, waiters release theirs temporarily
 	runner.Register("C20", runner.Scenario{Name: "batch-under-limiter", Options: func(string) simrt.Options {
-		return simrt.Options{MaxSteps: 60000, RotateMaps: true, ParkPermille: 10, MapPausePermille: 200}
+		return simrt.Options{MaxSteps: 60000, RotateMaps: true, ParkPermille: 10, MapPausePermille: 200, SpawnPausePermille: 30}
 	}, Body: func(c *runner.Ctx) { batchBody(c) }})
 }
 
